@@ -204,6 +204,9 @@ def make_executor(sim: Sim, exec_cfg: dict, st: ExecState):
                         # a real pool keeps running what it has after shutdown(wait=False)
                         sim.drain()
             finally:
+                from .loop import quiesce_zarr_loop
+
+                quiesce_zarr_loop()
                 st.exited += 1
                 sim.emit("execute_dag_exit")
 
@@ -236,6 +239,11 @@ def single_job_labels(sim: Sim):
                 j.label = label
                 return sim.body_wrapper(j, lambda: orig(input, func, config=config, name=name, compute_id=compute_id))
             return orig(input, func, config=config, name=name, compute_id=compute_id)
+        except BaseException:
+            from .loop import quiesce_zarr_loop
+
+            quiesce_zarr_loop()
+            raise
         finally:
             for s in sim.stores:
                 s.sh.current_job = None
